@@ -50,7 +50,7 @@ def scenarios(t):
     sc.append({"id": "stream-multi-fast", "kind": "write", "what": "stream-multi", "fast": True})
     sc.append({"id": "stream", "kind": "write", "what": "stream"})
     sc.append({"id": "write_blocks", "kind": "write", "what": "write_blocks"})
-    for e in ("equal", "grow", "shrink", "rebuild", "rebuild-sinkfault"):
+    for e in ("equal", "equal-late", "grow", "shrink", "rebuild", "rebuild-sinkfault"):
         sc.append({"id": "update-" + e, "kind": "write", "what": "update", "edit": e})
     for api in ("blocklist", "byte", "sample", "sample-iter", "channel", "seektable", "verify"):
         sc.append({"id": "read-" + api, "kind": "read", "what": "read", "api": api})
